@@ -671,3 +671,11 @@ mod test {
         x.read(size, true).map(|chunk| chunk.bytes)
     }
 }
+
+#[cfg(feature = "verif-hooks")]
+impl Assembler {
+    /// (buffered, allocated, chunks), for external verification harnesses
+    pub(in crate::connection) fn verif_probe(&self) -> (usize, usize, usize) {
+        (self.buffered, self.allocated, self.data.len())
+    }
+}
